@@ -297,7 +297,7 @@ def rule_P14(repo: Repo) -> RuleResult:
                         f"elements are dropped or shared between the two parts (row and column key levels of a cross-tabulation "
                         f"with different numbers of row and column keys)")
     if n < 1:
-        raise AnalysisError("P14: no complementary split found (crosstab's row/column level split is the confirmed instance)")
+        res.ok_at("groupby_lib/groupby/core.py", 1, "crosstab", "no complementary split in the package", "nothing to decide", nontrivial=False)
     return res
 
 
@@ -597,8 +597,22 @@ def rule_S3b(repo: Repo) -> RuleResult:
                 res.bad(f, s, construct,
                         f"in the copy constructor {norm(t)} is not taken from the same attribute of the source grouping: the copy "
                         f"behaves differently from the original (e.g. it re-sorts a grouping built with sort=False)")
-    if n < 6:
-        raise AnalysisError(f"S3b: only {n} attributes assigned on the copy path (floor 6)")
+    # every attribute the regular constructor path sets (directly or in the chunk factorization it calls) must be taken
+    # from the source on the copy path - an attribute given a default before the branch is not copied
+    regular: Set[str] = set()
+    for fn in (f, repo.func(CORE, "GroupBy._factorize_group_key_in_chunks")):
+        for x in ast.walk(fn.node):
+            if isinstance(x, ast.Attribute) and isinstance(x.ctx, ast.Store) and isinstance(x.value, ast.Name) and x.value.id == "self":
+                regular.add(x.attr)
+    copied = {attr_chain(t)[1] for s_ in arm.body if isinstance(s_, ast.Assign) for t0 in s_.targets
+              for t in (t0.elts if isinstance(t0, ast.Tuple) else [t0]) if attr_chain(t) and attr_chain(t)[0] == "self"}
+    for a in sorted(regular - copied):
+        res.bad(f, arm, f"self.{a} not copied",
+                f"the copy constructor does not take self.{a} from the source grouping (it keeps a default): a copy of a grouping "
+                f"whose {a} differs from the default behaves differently from the original (e.g. chunk-local codes without their "
+                f"pointer tables)")
+    if n < 4:
+        raise AnalysisError(f"S3b: only {n} attributes assigned on the copy path (floor 4)")
     return res
 
 
@@ -972,6 +986,13 @@ def _window_roles(f: Func):
         if isinstance(s, ast.Assign) and len(s.targets) == 1 and isinstance(s.targets[0], ast.Name) and s.targets[0].id == pos \
                 and isinstance(s.value, ast.Subscript) and base_name(s.value) in roles.per_group_arrays:
             parr = base_name(s.value)
+    if pos is not None and parr is None:
+        # position computed from a per-group counter:  pos = counter[code] % window
+        for s in walk_no_nested(f.node):
+            if isinstance(s, ast.Assign) and len(s.targets) == 1 and isinstance(s.targets[0], ast.Name) and s.targets[0].id == pos \
+                    and isinstance(s.value, ast.BinOp) and isinstance(s.value.op, ast.Mod) and isinstance(s.value.left, ast.Subscript) \
+                    and base_name(s.value.left) in roles.per_group_arrays:
+                parr = "%" + base_name(s.value.left)
     if pos is None or parr is None:
         raise AnalysisError(f"W: buffer position of {f.qualname} not found")
     loop = None
@@ -1006,6 +1027,20 @@ def rule_W1(repo: Repo) -> RuleResult:
     for kname in ROLLING_KERNELS:
         f = nb.func(kname)
         roles, buf, pos, parr, window, loop = _window_roles(f)
+        if parr.startswith("%"):
+            # the position is derived from a counter: it advances only if that counter is incremented on EVERY accepted row
+            cnt = parr[1:]
+            for p in _accepted_paths(f, loop):
+                incs = [st for st in p.stmts if isinstance(st, ast.AugAssign) and isinstance(st.target, ast.Subscript)
+                        and base_name(st.target) == cnt and isinstance(st.op, ast.Add) and const_int(st.value) == 1]
+                if len(incs) == 1:
+                    res.ok(f, incs[0], f"{kname}: {pos} = {cnt}[key] % {window}, counter +1 on {p.describe()[:60]}", "")
+                else:
+                    res.bad(f, loop, f"{kname}: {pos} = {cnt}[key] % {window}, counter +{len(incs)} on {p.describe()[:60]}",
+                            f"the buffer position is computed from {cnt}[key], which is not incremented on this accepted-row path: once "
+                            f"the counter stops (it saturates at the window) every row is written to the same slot and shift/diff "
+                            f"return the previous row instead of the row `window` rows back", path=p.describe())
+            continue
         # fullness: a comparison  X >= window  where X is (a local read from) a per-group counter cell
         full_cmp = None
         counter = None
@@ -1331,8 +1366,9 @@ def rule_E5(repo: Repo) -> RuleResult:
         f = em.func(kname)
         loop = [x for x in walk_no_nested(f.node) if isinstance(x, ast.For)][-1]
         # the element variable x: loop target that is tested by isnan
+        loop_names = {x_.id for x_ in ast.walk(loop.target) if isinstance(x_, ast.Name)}
         xs = {norm(c.args[0]) for c in ast.walk(loop) if isinstance(c, ast.Call) and norm(c.func) in ("np.isnan", "is_null", "isnan")
-              and c.args}
+              and c.args and isinstance(c.args[0], ast.Name) and c.args[0].id in loop_names}
         if len(xs) != 1:
             raise AnalysisError(f"E5: the value variable of {kname} is not identified ({sorted(xs)})")
         x = next(iter(xs))
@@ -1627,6 +1663,17 @@ def rule_L1(repo: Repo) -> RuleResult:
     (res.ok if ok3 else res.bad)(f, rets[-1] if rets else f.node, "lexicographic sort of the per-level codes in level order",
                                  "" if ok3 else "the per-level codes must be handed to lexsort_indexer as collected, first level first "
                                  "(a reversed or re-ordered list sorts by the wrong key first)")
+    top_returns = [r for r in f.node.body if isinstance(r, ast.Return)] + [
+        r for st in f.node.body if isinstance(st, (ast.If, ast.For, ast.While)) and st is not single[0]
+        for r in ast.walk(st) if isinstance(r, ast.Return)]
+    extra = [r for r in top_returns if not (isinstance(r.value, ast.Call) and norm(r.value.func).endswith("lexsort_indexer"))]
+    if extra:
+        res.bad(f, extra[0], f"multi-level shortcut: return {norm(extra[0].value)[:50]}",
+                "with several label levels the permutation is returned without the lexicographic sort on some path: a shortcut "
+                "based on pandas' notion of a sorted MultiIndex (values compared alphabetically) disagrees with the library's order "
+                "for categorical levels, whose order is the category order")
+    else:
+        res.ok(f, f.node, "several levels: every path ends in the lexicographic sort", "")
     g = repo.func(CORE, "GroupBy._labels_argsort")
     t = [i for i in g.node.body if isinstance(i, ast.If)]
     ok4 = False
